@@ -193,6 +193,20 @@ func EncLen(width uint16, payload []byte) int {
 	return 3 + len(payload)
 }
 
+// One draws exactly one record; the budget is raised to what the template needs at the least, so
+// the result is never missing (a template of wide fixed-length fields can exceed a small budget).
+func One(r *rand.Rand, t []regtable.Elem, budget int) [][]byte {
+	if m := refipfix.MinRecordLen(Widths(t)) + 8; budget < m {
+		budget = m
+	}
+	for {
+		if recs := Records(r, t, 1, budget); len(recs) == 1 {
+			return recs[0]
+		}
+		budget *= 2
+	}
+}
+
 // Records draws nrec records for the template; the total encoded size of all records is
 // kept at or below budget bytes by shortening variable-length payloads.
 func Records(r *rand.Rand, t []regtable.Elem, nrec int, budget int) [][][]byte {
